@@ -8,5 +8,7 @@ From Chess3 Require Export Model.TimeCtl.
 From Chess3 Require Export Model.BoardDef.
 From Chess3 Require Export Model.BoardStreams.
 From Chess3 Require Export Spec.ChessJudge.
+From Chess3 Require Export Model.SuccStreams.
+From Chess3 Require Export Spec.SuccJudge.
 
 Extraction Language OCaml.
